@@ -141,7 +141,7 @@ Definition elect (c : config) (m : qmsg) : qmsg :=
                 | Some (rf, cf, sf) =>
                     match fees_for rf cf sf g with
                     | Some f => set_elected g (Some f) m
-                    | None => m                     (* panic in the fee arithmetic: C09 *)
+                    | None => m                     (* mulCeilUint64 error: this message only is skipped *)
                     end
                 end
               else set_elected g (mfees m) m
